@@ -39,6 +39,9 @@ func data() map[string]interface{} {
 		"a": "A", "b": "B", "c": "C", "d": "D",
 		"i0": 0, "i1": 1, "i2": 2, "sx": "x", "sy": "y", "t": true, "f": false,
 		"two": []interface{}{1, 2},
+		// boundary containers, only mentioned by the returned-container programs (E5, R5)
+		"one1": []interface{}{7}, "nest1": []interface{}{[]interface{}{1, 2}},
+		"hash1": &model.OrderedMap{Keys: []interface{}{"k"}, Vals: map[interface{}]interface{}{"k": 1}},
 		// a Go struct value: only the hand-written cases (memberCases) mention it
 		"user": person{Name: "ann", Kid: &person{Name: "kid"}},
 	}
@@ -72,6 +75,13 @@ func mkHelpers() map[string]model.Helper {
 	counts := map[string]int{}
 	return map[string]model.Helper{
 		"id": func(a []interface{}) (interface{}, error) { return a[0], nil },
+		// kind reports the Go-side shape of its argument (E5, R5): a list of one element and that element differ
+		"kind": func(a []interface{}) (interface{}, error) {
+			if len(a) != 1 {
+				return nil, fmt.Errorf("kind of %d values", len(a))
+			}
+			return shape(a[0]), nil
+		},
 		"tick": func(a []interface{}) (interface{}, error) {
 			k := fmt.Sprint(a[0])
 			counts[k]++
@@ -88,7 +98,7 @@ func runMany(r *vk.Run, prog []model.Node, compact bool, many int, class string)
 	src := model.Printer{Compact: compact}.Nodes(prog)
 	c := Case{Src: src, Compact: compact, Prog: model.Encode(prog), Many: many}
 	defer r.Watch("fn", c)()
-	want := model.Run(prog, dataFor(many), mkHelpers())
+	want := model.Run(prog, dataFor(many), modelHelpers())
 	if want.Unspec != "" {
 		r.Exclude("unspecified")
 		return nil
@@ -1557,6 +1567,420 @@ func memberCases() []litClassed {
 	return out
 }
 
+// ---- returned containers (E5, R5) ----------------------------------------------------
+//
+// "yields the value of the first return reached ... the value can be emitted, tested, compared and passed on like any
+// other value": the value a call yields is the returned value ITSELF, whatever its kind and size. A list of one
+// element prints like its element, so these programs use the result where a container and its content differ: the Go
+// helper kind (reports the Go-side shape), the built-in len, an index, a for loop, a truth test, == nil, another
+// template function, an element of a new list / hash.
+
+// shape spells the kind and the content of a value as a Go helper sees it, on the model side and on the engine side.
+func shape(v interface{}) string {
+	ents := func(keys []string, get func(string) interface{}) string {
+		sort.Strings(keys)
+		parts := make([]string, len(keys))
+		for i, k := range keys {
+			parts[i] = k + "=" + shape(get(k))
+		}
+		return "map(" + strings.Join(parts, ",") + ")"
+	}
+	switch t := v.(type) {
+	case nil:
+		return "nil"
+	case []interface{}:
+		parts := make([]string, len(t))
+		for i, e := range t {
+			parts[i] = shape(e)
+		}
+		return "list(" + strings.Join(parts, ",") + ")"
+	case *model.OrderedMap:
+		keys := make([]string, 0, len(t.Keys))
+		for _, k := range t.Keys {
+			keys = append(keys, fmt.Sprint(k))
+		}
+		return ents(keys, func(k string) interface{} { return t.Vals[k] })
+	case map[string]interface{}:
+		keys := make([]string, 0, len(t))
+		for k := range t {
+			keys = append(keys, k)
+		}
+		return ents(keys, func(k string) interface{} { return t[k] })
+	case map[interface{}]interface{}:
+		keys := make([]string, 0, len(t))
+		byName := map[string]interface{}{}
+		for k, e := range t {
+			keys = append(keys, fmt.Sprint(k))
+			byName[fmt.Sprint(k)] = e
+		}
+		return ents(keys, func(k string) interface{} { return byName[k] })
+	case int, float64, bool:
+		return fmt.Sprintf("%T.%v", v, v)
+	case string:
+		return "string." + t + "."
+	case model.HTML:
+		return "html." + string(t) + "."
+	}
+	return "other"
+}
+
+// modelHelpers: what the reference interpreter knows. The built-in len is not redefined for the engine (its own is
+// used); the reference needs its meaning for lists and hashes: the number of elements / entries.
+func modelHelpers() map[string]model.Helper {
+	h := mkHelpers()
+	h["len"] = func(a []interface{}) (interface{}, error) {
+		if len(a) != 1 {
+			return nil, fmt.Errorf("len of %d values", len(a))
+		}
+		switch t := a[0].(type) {
+		case []interface{}:
+			return len(t), nil
+		case *model.OrderedMap:
+			return len(t.Keys), nil
+		}
+		return nil, fmt.Errorf("len of %T: only asked of lists and hashes", a[0])
+	}
+	return h
+}
+
+// cval: an expression together with what the generator knows about its value
+type cval struct {
+	e    model.Expr
+	kind byte     // 'l' list, 'm' hash, 's' anything else
+	n    int      // elements / entries
+	keys []string // of a hash
+	el0  *cval    // of a non-empty list: its first element; of a hash: the value of keys[0]
+}
+
+func cScalar(x interface{}) cval { return cval{e: model.Lit{V: x}, kind: 's'} }
+func cList(els ...cval) cval {
+	c := cval{kind: 'l', n: len(els)}
+	xs := make([]model.Expr, len(els))
+	for i := range els {
+		xs[i] = els[i].e
+	}
+	c.e = model.Arr{Els: xs}
+	if len(els) > 0 {
+		c.el0 = &els[0]
+	}
+	return c
+}
+func cHashOf(keys []string, vals ...cval) cval {
+	c := cval{kind: 'm', n: len(keys), keys: keys}
+	kvs := make([]model.KV, len(keys))
+	for i, k := range keys {
+		kvs[i] = model.KV{K: k, V: vals[i].e}
+	}
+	c.e = model.Hash{KVs: kvs}
+	if len(vals) > 0 {
+		c.el0 = &vals[0]
+	}
+	return c
+}
+
+// with: the same knowledge about another expression that has the same value
+func (c cval) with(e model.Expr) cval { c.e = e; return c }
+
+// containerPool: the boundaries of "a list / a hash": empty, one element of every kind (among them the values that
+// are false, nil and themselves containers), one list in a list in a list, one-entry hashes, and 0 / 2 / 3 elements
+// and scalars as neighbours.
+func containerPool() []cval {
+	i1, i2, i7 := cScalar(1), cScalar(2), cScalar(7)
+	k, kq := []string{"k"}, []string{"k", "q"}
+	return []cval{
+		cList(), cList(i7), cList(cScalar("x")), cList(cScalar(nil)), cList(cScalar(false)), cList(cScalar("")),
+		cList(cScalar(0)), cList(cScalar(true)), cList(cScalar(1.5)),
+		cList(cList()), cList(cList(i1)), cList(cList(i1, i2)), cList(cList(cList(i1))), cList(cList(cList())),
+		cList(cHashOf(k, i1)), cList(cList(cHashOf(k, i1))),
+		cList(i1, i2), cList(cList(i1), cList(i2)), cList(cList(i1, i2), cList(cScalar(3))), cList(i1, i2, cScalar(3)),
+		cList(cList(i1), i2), cList(cScalar(nil), cScalar(nil)),
+		cHashOf(k, i1), cHashOf(k, cList(i1)), cHashOf(k, cList(cList(i1))), cHashOf(k, cHashOf(k, i1)), cHashOf(k, cList()),
+		cHashOf(k, cScalar(nil)), cHashOf(kq, i1, i2), cHashOf(kq, cList(i1), cList(i2)),
+		i7, cScalar("x"), cScalar(""), cScalar(nil), cScalar(true), cScalar(false), cScalar(1.5), cScalar(0),
+		// held in the data of the render
+		cList(i7).with(model.Var{Name: "one1"}), cList(cList(i1, i2)).with(model.Var{Name: "nest1"}),
+		cHashOf(k, i1).with(model.Var{Name: "hash1"}), cList(i1, i2).with(model.Var{Name: "two"}),
+	}
+}
+
+// a route: how a function comes to return the value. It defines its functions (named with the suffix sfx, so that
+// routes can be chained: the argument of one is the call of another) and gives the call together with what is known
+// about its value.
+type cRoute struct {
+	name string
+	mk   func(arg cval, sfx string) ([]model.Node, cval)
+}
+
+func containerRoutes() []cRoute {
+	ret := func(e model.Expr) model.Node { return model.Code{S: model.ReturnS{X: e}} }
+	v := func(n string) model.Expr { return model.Var{Name: n} }
+	lit := func(x interface{}) model.Expr { return model.Lit{V: x} }
+	let := func(n string, e model.Expr) model.Node { return model.Code{S: model.LetS{Name: n, X: e}} }
+	call := func(fn string, a ...model.Expr) model.Expr { return model.Call{Fn: fn, Args: a} }
+	fn := func(params []string, body ...model.Node) model.Expr { return model.FnLit{Params: params, Body: body} }
+	ps := func(n ...string) []string { return n }
+	sif := func(c model.Expr, ns ...model.Node) model.Node {
+		return model.Code{S: model.IfS{If: &model.If{Cond: c, Then: ns}}}
+	}
+	bin := func(op string, l, r model.Expr) model.Expr { return model.Bin{Op: op, L: l, R: r} }
+	one := func(n model.Node) []model.Node { return []model.Node{n} }
+	listOf := func(c cval, e model.Expr) cval { return cval{e: e, kind: 'l', n: 1, el0: &c} }
+	return []cRoute{
+		{"literal", func(a cval, s string) ([]model.Node, cval) {
+			return one(let("lit"+s, fn(ps(), ret(a.e)))), a.with(call("lit" + s))
+		}},
+		{"parameter", func(a cval, s string) ([]model.Node, cval) {
+			return one(let("same"+s, fn(ps("p"), ret(v("p"))))), a.with(call("same"+s, a.e))
+		}},
+		{"second-parameter", func(a cval, s string) ([]model.Node, cval) {
+			return one(let("snd"+s, fn(ps("a", "b"), ret(v("b"))))), a.with(call("snd"+s, lit(0), a.e))
+		}},
+		{"let-variable", func(a cval, s string) ([]model.Node, cval) {
+			return one(let("held"+s, fn(ps("p"), let("t", v("p")), ret(v("t"))))), a.with(call("held"+s, a.e))
+		}},
+		{"let-literal", func(a cval, s string) ([]model.Node, cval) {
+			return one(let("hlit"+s, fn(ps(), let("t", a.e), ret(v("t"))))), a.with(call("hlit" + s))
+		}},
+		{"two-calls", func(a cval, s string) ([]model.Node, cval) {
+			return []model.Node{let("inner"+s, fn(ps("p"), ret(v("p")))), let("outer"+s, fn(ps("p"), ret(call("inner"+s, v("p")))))},
+				a.with(call("outer"+s, a.e))
+		}},
+		{"two-calls-let", func(a cval, s string) ([]model.Node, cval) {
+			return []model.Node{let("inl"+s, fn(ps("p"), ret(v("p")))), let("outl"+s, fn(ps("p"), let("r", call("inl"+s, v("p"))), ret(v("r"))))},
+				a.with(call("outl"+s, a.e))
+		}},
+		{"nested-if", func(a cval, s string) ([]model.Node, cval) {
+			return one(let("cond"+s, fn(ps("p", "w"), sif(v("w"), sif(lit(true), ret(v("p")))), ret(lit("no"))))), a.with(call("cond"+s, a.e, lit(true)))
+		}},
+		{"higher-order", func(a cval, s string) ([]model.Node, cval) {
+			return []model.Node{let("hid"+s, fn(ps("p"), ret(v("p")))), let("ap"+s, fn(ps("h", "p"), ret(call("h", v("p")))))},
+				a.with(call("ap"+s, v("hid"+s), a.e))
+		}},
+		{"recursion", func(a cval, s string) ([]model.Node, cval) {
+			return one(let("rec"+s, fn(ps("p", "n"), sif(bin("==", v("n"), lit(0)), ret(v("p"))), ret(call("rec"+s, v("p"), bin("-", v("n"), lit(1))))))),
+				a.with(call("rec"+s, a.e, lit(2)))
+		}},
+		{"wrap", func(a cval, s string) ([]model.Node, cval) {
+			e := call("wrap"+s, a.e)
+			return one(let("wrap"+s, fn(ps("x"), ret(model.Arr{Els: []model.Expr{v("x")}})))), listOf(a, e)
+		}},
+		{"wrap-let", func(a cval, s string) ([]model.Node, cval) {
+			e := call("wlet"+s, a.e)
+			return one(let("wlet"+s, fn(ps("x"), let("t", model.Arr{Els: []model.Expr{v("x")}}), ret(v("t"))))), listOf(a, e)
+		}},
+		{"wrap-twice", func(a cval, s string) ([]model.Node, cval) {
+			e := call("wtw"+s, a.e)
+			in := listOf(a, nil)
+			return one(let("wtw"+s, fn(ps("x"), ret(model.Arr{Els: []model.Expr{model.Arr{Els: []model.Expr{v("x")}}}})))), listOf(in, e)
+		}},
+		{"wrap-recursive", func(a cval, s string) ([]model.Node, cval) {
+			e := call("wrec"+s, a.e, lit(2))
+			in := listOf(a, nil)
+			return one(let("wrec"+s, fn(ps("p", "n"), sif(bin("==", v("n"), lit(0)), ret(v("p"))), ret(model.Arr{Els: []model.Expr{call("wrec"+s, v("p"), bin("-", v("n"), lit(1)))}})))),
+				listOf(listOf(a, nil), e).withEl0(in)
+		}},
+		{"wrap-hash", func(a cval, s string) ([]model.Node, cval) {
+			e := call("wh"+s, a.e)
+			return one(let("wh"+s, fn(ps("x"), ret(model.Hash{KVs: []model.KV{{K: "k", V: v("x")}}})))), cval{e: e, kind: 'm', n: 1, keys: []string{"k"}, el0: &a}
+		}},
+		{"pair", func(a cval, s string) ([]model.Node, cval) { // control: two elements
+			e := call("pair"+s, a.e)
+			return one(let("pair"+s, fn(ps("x"), ret(model.Arr{Els: []model.Expr{v("x"), v("x")}})))), cval{e: e, kind: 'l', n: 2, el0: &a}
+		}},
+		{"first-of", func(a cval, s string) ([]model.Node, cval) { // the function itself takes the container apart
+			if a.kind != 'l' || a.n == 0 {
+				return nil, cval{}
+			}
+			return one(let("first"+s, fn(ps("xs"), ret(model.Idx{X: v("xs"), I: lit(0)})))), a.el0.with(call("first"+s, a.e))
+		}},
+	}
+}
+
+func (c cval) withEl0(e cval) cval { c.el0 = &e; return c }
+
+// a use: where the result stands. Each is chosen so that a container and its only element give different output
+// (directly emitted, the control, they print alike).
+type cUse struct {
+	name string
+	mk   func(r cval, sfx string) []model.Node // nil: not applicable to this kind of value
+}
+
+func containerUses() []cUse {
+	T := func(s string) model.Node { return model.Text{S: s} }
+	v := func(n string) model.Expr { return model.Var{Name: n} }
+	lit := func(x interface{}) model.Expr { return model.Lit{V: x} }
+	let := func(n string, e model.Expr) model.Node { return model.Code{S: model.LetS{Name: n, X: e}} }
+	call := func(fn string, a ...model.Expr) model.Expr { return model.Call{Fn: fn, Args: a} }
+	emit := func(e model.Expr) model.Node { return model.Emit{X: e} }
+	ret := func(e model.Expr) model.Node { return model.Code{S: model.ReturnS{X: e}} }
+	fn := func(params []string, body ...model.Node) model.Expr { return model.FnLit{Params: params, Body: body} }
+	ifelse := func(c model.Expr, th, el model.Node) model.Node {
+		return model.EmitIf{If: &model.If{Cond: c, Then: []model.Node{th}, HasElse: true, Else: []model.Node{el}}}
+	}
+	isCont := func(r cval) bool { return r.kind == 'l' || r.kind == 'm' }
+	key0 := func(r cval) model.Expr {
+		if r.kind == 'm' {
+			return lit(r.keys[0])
+		}
+		return lit(0)
+	}
+	return []cUse{
+		{"kind", func(r cval, s string) []model.Node { return []model.Node{T("["), emit(call("kind", r.e)), T("]")} }},
+		{"emit", func(r cval, s string) []model.Node { return []model.Node{T("["), emit(r.e), T("]")} }}, // control (a hash has no stated printed form: excluded by the reference)
+		{"len", func(r cval, s string) []model.Node {
+			if !isCont(r) {
+				return nil
+			}
+			return []model.Node{T("["), emit(call("len", r.e)), T("]")}
+		}},
+		{"index", func(r cval, s string) []model.Node {
+			if !isCont(r) || r.n == 0 {
+				return nil
+			}
+			return []model.Node{T("["), emit(call("kind", model.Idx{X: r.e, I: key0(r)})), T("]")}
+		}},
+		{"index-index", func(r cval, s string) []model.Node {
+			if !isCont(r) || r.n == 0 || r.el0 == nil || !isCont(*r.el0) || r.el0.n == 0 {
+				return nil
+			}
+			return []model.Node{T("["), emit(call("kind", model.Idx{X: model.Idx{X: r.e, I: key0(r)}, I: key0(*r.el0)})), T("]")}
+		}},
+		{"for", func(r cval, s string) []model.Node {
+			if !isCont(r) || (r.kind == 'm' && r.n > 1) { // the visiting order of a hash is not stated
+				return nil
+			}
+			return []model.Node{T("["), model.EmitFor{For: &model.For{Key: "i", Val: "e", Iter: r.e, Body: []model.Node{T("("), emit(v("i")), T(":"), emit(call("kind", v("e"))), T(")")}}}, T("]")}
+		}},
+		{"truth", func(r cval, s string) []model.Node {
+			return []model.Node{T("["), ifelse(r.e, T("yes"), T("no")), T("]")}
+		}},
+		{"not", func(r cval, s string) []model.Node {
+			return []model.Node{T("["), emit(model.Not{X: r.e}), T("]")}
+		}},
+		{"is-nil", func(r cval, s string) []model.Node {
+			return []model.Node{T("["), emit(model.Bin{Op: "==", L: r.e, R: lit(nil)}), T("]")}
+		}},
+		{"let-then", func(r cval, s string) []model.Node {
+			ns := []model.Node{let("res"+s, r.e), T("["), emit(call("kind", v("res"+s)))}
+			if isCont(r) {
+				ns = append(ns, T("/"), emit(call("len", v("res"+s))))
+			}
+			return append(ns, T("]"))
+		}},
+		{"passed-on", func(r cval, s string) []model.Node {
+			return []model.Node{let("tell"+s, fn([]string{"x"}, ret(call("kind", v("x"))))), T("["), emit(call("tell"+s, r.e)), T("]")}
+		}},
+		{"passed-on-len", func(r cval, s string) []model.Node {
+			if !isCont(r) {
+				return nil
+			}
+			return []model.Node{let("size"+s, fn([]string{"x"}, ret(call("len", v("x"))))), T("["), emit(call("size"+s, r.e)), T("]")}
+		}},
+		{"passed-on-first", func(r cval, s string) []model.Node {
+			if !isCont(r) || r.n == 0 {
+				return nil
+			}
+			return []model.Node{let("head"+s, fn([]string{"x"}, ret(model.Idx{X: v("x"), I: key0(r)}))), T("["), emit(call("kind", call("head"+s, r.e))), T("]")}
+		}},
+		{"element", func(r cval, s string) []model.Node {
+			return []model.Node{T("["), emit(call("kind", model.Arr{Els: []model.Expr{r.e}})), T("|"), emit(call("kind", model.Arr{Els: []model.Expr{lit(0), r.e}})), T("|"),
+				emit(call("kind", model.Hash{KVs: []model.KV{{K: "q", V: r.e}}})), T("]")}
+		}},
+		{"in-blocks", func(r cval, s string) []model.Node {
+			return []model.Node{T("["), model.EmitIf{If: &model.If{Cond: lit(true), Then: []model.Node{T("a"), emit(call("kind", r.e)), T("b")}}},
+				model.EmitFor{For: &model.For{Val: "it", Iter: model.Arr{Els: []model.Expr{lit(1), lit(2)}}, Body: []model.Node{T("("), emit(call("kind", r.e)), T(")")}}}, T("]")}
+		}},
+		{"twice", func(r cval, s string) []model.Node { // the same call twice in one render
+			return []model.Node{T("["), emit(call("kind", r.e)), T("|"), emit(call("kind", r.e)), T("]")}
+		}},
+	}
+}
+
+// containerProgram (R5): a random value nested up to 3 deep, returned through a chain of 1-3 routes (the call of one
+// is the argument of the next), used at 1-3 discriminating sites of one render; the caller may own variables named
+// like the parameters and lets of the routes.
+func containerProgram(t *rapid.T) ([]model.Node, []string) {
+	var genV func(depth int) cval
+	scalars := []interface{}{0, 1, 7, "x", "", nil, true, false, 1.5, "a b"}
+	genV = func(depth int) cval {
+		k := rapid.IntRange(0, 9).Draw(t, "vk")
+		if depth == 0 || k < 2 {
+			return cScalar(scalars[rapid.IntRange(0, len(scalars)-1).Draw(t, "sc")])
+		}
+		if k < 8 {
+			n := []int{0, 1, 1, 1, 1, 2, 3}[rapid.IntRange(0, 6).Draw(t, "n")]
+			els := make([]cval, n)
+			for i := range els {
+				els[i] = genV(depth - 1)
+			}
+			return cList(els...)
+		}
+		if rapid.IntRange(0, 3).Draw(t, "two") == 0 {
+			return cHashOf([]string{"k", "q"}, genV(depth-1), genV(depth-1))
+		}
+		return cHashOf([]string{"k"}, genV(depth-1))
+	}
+	let := func(n string, e model.Expr) model.Node { return model.Code{S: model.LetS{Name: n, X: e}} }
+	var prog []model.Node
+	var classes []string
+	// decoys: the caller's variables named like what the routes bind
+	for _, n := range []string{"p", "x", "t", "r", "xs", "n"} {
+		if rapid.IntRange(0, 3).Draw(t, "decoy") == 0 {
+			prog = append(prog, let(n, model.Lit{V: "caller-" + n}))
+		}
+	}
+	val := genV(rapid.IntRange(1, 3).Draw(t, "depth"))
+	pool := containerPool()
+	if rapid.IntRange(0, 3).Draw(t, "frompool") == 0 {
+		val = pool[rapid.IntRange(0, len(pool)-1).Draw(t, "pool")]
+	}
+	if rapid.IntRange(0, 3).Draw(t, "argvar") == 0 {
+		prog = append(prog, let("held", val.e))
+		val = val.with(model.Var{Name: "held"})
+	}
+	routes := containerRoutes()
+	cur := val
+	for i, n := 0, rapid.IntRange(1, 3).Draw(t, "routes"); i < n; i++ {
+		rt := routes[rapid.IntRange(0, len(routes)-1).Draw(t, "route")]
+		defs, res := rt.mk(cur, fmt.Sprint(i))
+		if defs == nil {
+			continue
+		}
+		prog = append(prog, defs...)
+		cur = res
+		classes = append(classes, "route:"+rt.name)
+	}
+	if len(classes) == 0 {
+		defs, res := routes[1].mk(cur, "0")
+		prog, cur = append(prog, defs...), res
+		classes = append(classes, "route:"+routes[1].name)
+	}
+	uses := containerUses()
+	for i, n := 0, rapid.IntRange(1, 3).Draw(t, "uses"); i < n; i++ {
+		u := uses[rapid.IntRange(0, len(uses)-1).Draw(t, "use")]
+		ns := u.mk(cur, "u"+fmt.Sprint(i))
+		if ns == nil {
+			u = uses[0]
+			ns = u.mk(cur, "u"+fmt.Sprint(i))
+		}
+		prog = append(prog, ns...)
+		classes = append(classes, "use:"+u.name)
+	}
+	switch {
+	case cur.kind == 'l' && cur.n == 1:
+		classes = append(classes, "result:list-of-one")
+	case cur.kind == 'l' && cur.n == 0:
+		classes = append(classes, "result:empty-list")
+	case cur.kind == 'l':
+		classes = append(classes, "result:longer-list")
+	case cur.kind == 'm':
+		classes = append(classes, fmt.Sprintf("result:hash-of-%d", cur.n))
+	default:
+		classes = append(classes, "result:scalar")
+	}
+	return prog, classes
+}
+
 const rule = "(E) 61 fixed programs: self-recursion whose parameters and lets are read after the inner call returned (sum, fibonacci, a let kept across the call, swapped arguments), swapped and rotated namesake arguments, nested calls, results used in + == < ! || and if tests, emission inside if/for blocks with content after it, aliasing, higher-order application, a function returning a function, recursion to depth 25, first-return-wins with dead code; each in the tag-per-statement and in the compact single-tag layout. " +
 	"(E2) ~135 boundary and state programs x 2 layouts: mutual recursion, self-application, a function local to a body, recursion in tail position with swapped / rotated / mutually dependent arguments, recursion to depth 60..900 (around 100 and 128; beyond 64 a refusal with an error is accepted), a return nested in 1..14 silent or emitting blocks, conditional lets that must be gone in the next call of the same function (directly, in blocks, in loops, through another function) and in the caller, functions of 0/1/2 parameters whose lets are named like variables of the caller, parameters shadowed by let and assigned, return nil / false / \"\" followed by more code, dead code that would fail or count if it were evaluated, calls that fail inside the body and are forgiven by if / == / ! / || with the caller's variables probed afterwards, one call site evaluated 1100 times (succeeding, and failing + forgiven), argument EXPRESSIONS (+, index of an array / hash literal, Go helper call, nested call, ! == && ||) that mention namesakes of the parameters, arguments counted by a tick helper (evaluated exactly once, read or not), values that print alike (1 / \"1\" / 1.0, nil / \"<nil>\", [1,2] / \"[1 2]\", true / \"true\", \"a b\",\"c\" / \"a\",\"b c\") passed to one function in one render, a caller variable rebound between two identical calls, functions and function-valued parameters named like built-in helpers (len raw capitalize partial debug) and like the Go helper of the check, such functions and variables (also truncate upcase range) reached from two to four calls deep / through a parameter from a nested call / by a recursion, arrays / hashes / floats / functions through parameters and returns, function literals as arguments, results as array elements, hash values, indexes, for-iterables, else-if conditions, operands of ! && || < * - ~=, assigned with =, as silent statements inside if / for blocks and inside other bodies. " +
 	"(E3) programs whose called expression is not a name (13 by hand + 768 from a matrix): the result of a call, a function literal, an element of a hash or an array x 8 keys (strings with and without dots, float, int, variable) x 3 suffixes x 4 arguments x {emitted, applied to its own result and compared}; expectation argument + suffix. " +
@@ -1565,7 +1989,9 @@ const rule = "(E) 61 fixed programs: self-recursion whose parameters and lets ar
 	"(R3) 1-3 functions defined in turn (a later one may call an earlier one as a statement, in a let, in a condition) with richer CLOSED bodies: lets that are read, parameters shadowed by let or assigned, parameters named id / len / raw / tmp / res / it, conditional lets read where an unknown name is tolerated, tick counters, silent and emitting ifs, chains nested 4..12 blocks deep, returns of labels, variables (possibly nil), nil, false / \"\" / 0, arrays, label + parameter, dead code that would fail or count; 1-4 calls from a caller that may own variables named like the bodies' lets, arguments that are composite expressions over namesakes, unknown identifiers (the render must fail) or the loop variable, 20 use sites incl. else-if, !, && ||, array / hash element, = assignment, call == call, silent statement at top level / in if / in for, the same call before and after a caller variable is rebound; afterwards a b c d are emitted, every name a body let-bound is tested for leaking, and the tick totals are emitted. " +
 	"(R4) generated recursion: rec(p1..pk, n) and optionally a second function calling it back; below n = 0 the body keeps a parameter in a let, calls itself with permuted / joined / literal arguments, rebinds a parameter, and returns expressions that read parameters, the let and the inner result after the inner call, self calls in tail position, in operands, two per return; called to depth 0-4 with namesake arguments. " +
 	"(E4) 37 programs selecting a field or a method directly from the result of a call of a template function (f(x).Name, .Hello(), .Kid.Name; emitted, compared, tested, let-bound), the value being a Go struct of the data; controls with the value held in a variable first. " +
-	"Oracle: reference interpreter (arguments evaluated once in the caller's scope, parameters bound to argument values, fresh scope, first return reached, nothing after it evaluated); for E3 and E4 the expectation is written down by hand. Non-trivial: every generated program (distinct by template text)."
+	"(E5) returned containers: 42 boundary values (the empty list, lists of ONE element of every kind - int, string, float, true, and the values that are false, nil, \"\", 0, an empty list, a list, a list in a list, a hash -, lists of 2 and 3, one- and two-entry hashes of scalars / lists / hashes, scalars as neighbours, lists and a hash held in the data) x 17 routes by which a function comes to return the value (return of the literal, of a parameter, of the second parameter, of a let variable, through two calls, through a let of an inner call, from a nested if, through a function-valued parameter, by recursion, wrapped by the function into [x] / a let of [x] / [[x]] / recursively / {k: x} / [x, x], taken apart by the function xs[0]) x 17 uses at which a container and its only element differ (a Go helper reporting the Go-side shape, the built-in len, [0] / [\"k\"], [0][0], for (i, e), if test, !, == nil, let then shape and len, passed on to template functions that report the shape / the length / the first element, as an element of a new list and hash, inside if and for blocks, twice in one render; emitted directly as control); quick: each program in one of the two layouts, thorough: both. " +
+	"(R5) random values nested to depth 3 (lists of 0-3 elements, mostly 1; hashes of 1-2 entries; scalars incl. nil false \"\" 0) or pool values, optionally held in a caller variable, returned through a CHAIN of 1-3 of these routes (the call of one is the argument of the next), 1-3 of these uses in one render, caller variables named like the routes' parameters and lets. " +
+	"Oracle: reference interpreter (arguments evaluated once in the caller's scope, parameters bound to argument values, fresh scope, first return reached, nothing after it evaluated); for E3 and E4 the expectation is written down by hand; in E5 / R5 the shape helper is the same Go function on both sides and len of a list / hash is its number of elements / entries. Non-trivial: every generated program (distinct by template text)."
 
 func setup(t *testing.T) *vk.Run {
 	r := vk.Start(t, "C16", rule,
@@ -1652,6 +2078,42 @@ func TestProp(t *testing.T) {
 	}
 	r.Subspace("a member selected from the result of a call (6 calls x 5 uses + controls)", int64(len(mc)), true)
 
+
+	// E5: boundary containers x routes x discriminating uses
+	{
+		pool, routes, uses := containerPool(), containerRoutes(), containerUses()
+		var n int64
+		for vi, val := range pool {
+			for ri, rt := range routes {
+				defs, res := rt.mk(val, "")
+				if defs == nil {
+					continue
+				}
+				for ui, u := range uses {
+					ns := u.mk(res, "")
+					if ns == nil {
+						continue
+					}
+					n++
+					if !r.Mine(int64(vi*len(routes)*len(uses) + ri*len(uses) + ui)) {
+						continue
+					}
+					prog := append(append([]model.Node{}, defs...), ns...)
+					class := "containers:" + rt.name
+					r.Class("containers:use:" + u.name)
+					// quick: every program in one layout (alternating), thorough: in both
+					if r.Thorough() || (vi+ri+ui)%2 == 0 {
+						r.Check(run(r, prog, false, class))
+					}
+					if r.Thorough() || (vi+ri+ui)%2 == 1 {
+						r.Check(run(r, prog, true, class+"/compact"))
+					}
+				}
+			}
+		}
+		r.Subspace("returned containers: 42 boundary values x 17 routes x 17 uses (applicable combinations), layouts: quick alternating, thorough both", n, true)
+	}
+
 	r.Rapid("functions", r.Pick(8000, 100000), func(t *rapid.T) *vk.Fail {
 		g := &fnGen{t: t}
 		prog, class := g.program()
@@ -1686,6 +2148,18 @@ func TestProp(t *testing.T) {
 		g := &fnGen{t: t}
 		prog, class := g.sequence()
 		compact := rapid.Bool().Draw(t, "compact")
+		if compact {
+			class += "/compact"
+		}
+		return run(r, prog, compact, class)
+	})
+	r.Rapid("containers", r.Pick(4000, 20000), func(t *rapid.T) *vk.Fail {
+		prog, classes := containerProgram(t)
+		compact := rapid.Bool().Draw(t, "compact")
+		for _, c := range classes {
+			r.Class("containers:" + c)
+		}
+		class := "containers:random"
 		if compact {
 			class += "/compact"
 		}
